@@ -220,6 +220,12 @@ func (c *Client) Create(ctx context.Context, name string) (io.WriteCloser, error
 			return
 		}
 		resp.Body.Close()
+		if resp.Request != nil && resp.Request.Method != http.MethodPut {
+			// The HTTP client has followed a redirect by sending a GET
+			// request without the body: this isn't the answer to the upload
+			done <- fmt.Errorf("webdav: upload redirected to a %v request", resp.Request.Method)
+			return
+		}
 		done <- nil
 	}()
 
